@@ -167,6 +167,33 @@ def helper_reports(prog, hf, vname, pix):
     return 'ok'
 
 
+PARALLEL_OK = ('boost::vecS', 'boost::listS', 'boost::slistS', 'boost::multisetS', 'boost::hash_multisetS')
+
+
+def check_graph_type(rep, prog, main, rule='R11f'):
+    """the graph the file is read into keeps parallel edges: the reader calls add_edge once per `e` line and ignores its
+    success flag, so an out-edge selector that rejects duplicates (setS, hash_setS) silently merges repeated pairs - the graph no
+    longer has one edge per line, the last weight wins and has_multiple_edges can never report the file"""
+    what = 'the graph type filled by read_dimacs_from_file stores parallel edges (one edge per `e` line)'
+    gvar, rd = graph_var(main)
+    if gvar is None:
+        return 0
+    t = prog.base_type(prog.vars[gvar].get('ty')) or {}
+    canon = t.get('canon') or ''
+    if not canon.startswith('boost::adjacency_list<'):
+        rep.undecided(rule, rd, main, what, 'the graph is a `%s`, not an adjacency_list' % canon[:60])
+        return 1
+    first = canon[len('boost::adjacency_list<'):].split(',')[0].strip()
+    if first in PARALLEL_OK:
+        rep.ok(rule, rd, main, what, 'OutEdgeList = %s' % first)
+    elif first in ('boost::setS', 'boost::hash_setS', 'boost::mapS', 'boost::hash_mapS'):
+        rep.violation(rule, rd, main, what, 'OutEdgeList = %s rejects a repeated vertex pair: add_edge returns the existing edge, the reader overwrites its weight, '
+                      'and a file with multiple edges is accepted as a simple graph' % first, key='%s|%s|out-edge-list' % (rule, os.path.basename(prog.tu)))
+    else:
+        rep.undecided(rule, rd, main, what, 'OutEdgeList selector `%s` is not in the table' % first)
+    return 1
+
+
 def check_main(rep, prog, main, algo, pos=False):
     tu = os.path.basename(prog.tu)
     cfg = main.cfg
@@ -237,6 +264,24 @@ def check_main(rep, prog, main, algo, pos=False):
             inner = region - {cfg.exit}
             if not has_diagnostic(cfg, inner):
                 problems.append('no diagnostic is written on the rejecting path')
+            # the rejecting arm may only record its verdict in a local (a code / flag) that a later branch acts upon: the region-based
+            # reasoning above does not follow values
+            carried = set()
+            if rej is not None and any('reachable after' in p_ for p_ in problems):
+                for e_ in cfg.blocks[rej].elems:
+                    n_ = main.nodes.get(e_) if e_ is not None and e_ >= 0 else None
+                    if n_ is not None and n_.k == 'BinaryOperator' and n_.op == '=' and ex.var_of(n_.c[0]) is not None and \
+                            prog.vars[ex.var_of(n_.c[0])].get('kind') == 'local':
+                        carried.add(ex.var_of(n_.c[0]))
+                for _round in range(3):
+                    for d_ in main.walk():
+                        if d_.k == 'VarDecl' and d_.c and d_.decl_id not in carried and any(ex.refs_var(d_.c[0], cv_) for cv_ in carried):
+                            carried.add(d_.decl_id)
+                tested = [cv_ for cv_ in carried for b_ in cfg.branch_blocks()
+                          if cfg.effective_cond(b_) is not None and ex.refs_var(cfg.effective_cond(b_), cv_)]
+                if tested:
+                    rep.undecided('R11a', v, main, what, 'the rejecting arm records its verdict in `%s`, which a later branch tests: values are not followed' % prog.vars[tested[0]]['name'])
+                    continue
             if problems:
                 rep.violation('R11a', v, main, what, '; '.join(sorted(set(problems))),
                               key='R11a|%s|%s' % (tu, vname))
@@ -404,6 +449,9 @@ def run(rep, tier):
     rep.rule('R11d', '--cores=0 ("all cores", a valid option value) never reaches the TBB knob as 0', floor=2)
     rep.rule('R04c', 'the MPI demo computes the same basis for every process count: the rank slices of the library functions it instantiates are exact partitions (shared with C04)', floor=0)
     rep.rule('R07l', 'the demo programs (and the library code they instantiate) do not divide by a collection size that is zero for a valid file (a forest): SIGFPE is not exit status 0', floor=0)
+    rep.rule('R11f', 'the demo graph type keeps parallel edges, so that has_multiple_edges sees what the file says', floor=4)
+    rep.rule('R10a', 'the reader cuts the line buffer only at a line terminator (the weight the gate tests is the weight in the file)', floor=0)
+    rep.rule('R10b', 'the weight field of every edge line is parsed in full or defaults to 1 only when absent', floor=0)
     tus = env.demo_tus()
     if len(tus) < 4:
         rep.analysis_broken('expected 4 demo programs under src/, found %d' % len(tus))
@@ -421,9 +469,19 @@ def run(rep, tier):
         for i in sub4.instances.values():
             if i.rule == 'R04c':
                 rep.add(i.rule, i.site, i.function, i.what, i.status, i.detail, key=i.key)
+        # the gate decides on what the reader stored: a weight field cut off the line buffer (or defaulted) slips a non-positive
+        # weight past has_non_positive_weights (shared with C10)
+        from . import c10
+        for rfn in prog.fns(c10.READER):
+            sub10 = type(rep)(rep.prop, rep.tier)
+            c10.check_reader(sub10, prog, rfn)
+            for i in sub10.instances.values():
+                if i.rule in ('R10a', 'R10b'):
+                    rep.add(i.rule, i.site, i.function, i.what, i.status, i.detail, key=i.key)
         for m in ms:
             m = common.driver_body(prog, m)
             check_main(rep, prog, m, algo)
+            check_graph_type(rep, prog, m)
             c20.knob_zero(rep, prog, m, 'R11d')
     # positive example: the pre-fix MPI shape and a gate that falls through
     pos = os.path.join(env.WITNESS, 'positive', 'c11_rank0_gate.cc')
